@@ -10,8 +10,9 @@ EXTENDS Naturals, Sequences, FiniteSets, TLC, Json
 
 CONSTANTS Targets, TraceFile
 Traces == JsonDeserialize(TraceFile)
-VARIABLES ti, l, st, found, tainted, pass, active, starts, rerun
-vars == <<ti, l, st, found, tainted, pass, active, starts, rerun>>
+VARIABLES ti, l, st, found, tainted, pass, active, starts, rerun,
+          ldeps      \* (target, dependency) pairs for which the loading of the dependency's outputs was begun (minimal mode)
+vars == <<ti, l, st, found, tainted, pass, active, starts, rerun, ldeps>>
 ToSet(s) == {s[i] : i \in DOMAIN s}
 H == Traces[ti].hdr
 DepsOf(t) == IF t \in DOMAIN H.deps THEN ToSet(H.deps[t]) ELSE {}
@@ -21,45 +22,47 @@ Adv == l' = l + 1 /\ ti' = ti
 Done(t) == st[t] \in {"done-hit", "done-ok"}
 
 Reset == /\ st' = [t \in Targets |-> "idle"] /\ found' = [t \in Targets |-> FALSE] /\ tainted' = [t \in Targets |-> FALSE]
-         /\ pass' = [t \in Targets |-> TRUE] /\ active' = {} /\ starts' = [t \in Targets |-> 0] /\ rerun' = {}
+         /\ pass' = [t \in Targets |-> TRUE] /\ active' = {} /\ starts' = [t \in Targets |-> 0] /\ rerun' = {} /\ ldeps' = {}
 Init == /\ ti = 1 /\ l = 1 /\ st = [t \in Targets |-> "idle"] /\ found = [t \in Targets |-> FALSE] /\ tainted = [t \in Targets |-> FALSE]
-        /\ pass = [t \in Targets |-> TRUE] /\ active = {} /\ starts = [t \in Targets |-> 0] /\ rerun = {}
+        /\ pass = [t \in Targets |-> TRUE] /\ active = {} /\ starts = [t \in Targets |-> 0] /\ rerun = {} /\ ldeps = {}
 NextTrace == ti' = ti + 1 /\ l' = 1 /\ Reset
 
 Core ==
   \/ /\ Is("t.hash") /\ st[Ev.t] = "idle" /\ \A d \in DepsOf(Ev.t) : Done(d)                            \* DepsFirstCli
-     /\ st' = [st EXCEPT ![Ev.t] = "hashed"] /\ Adv /\ UNCHANGED <<found, tainted, pass, active, starts, rerun>>
+     /\ st' = [st EXCEPT ![Ev.t] = "hashed"] /\ Adv /\ UNCHANGED <<found, tainted, pass, active, starts, rerun, ldeps>>
   \/ /\ Is("t.lookup") /\ st[Ev.t] = "hashed" /\ Cardinality(active \cup {Ev.t}) <= H.workers            \* WorkerBoundCli
      /\ st' = [st EXCEPT ![Ev.t] = "looked"] /\ found' = [found EXCEPT ![Ev.t] = Ev.b] /\ active' = active \cup {Ev.t}
-     /\ Adv /\ UNCHANGED <<tainted, pass, starts, rerun>>
-  \/ /\ Is("t.check") /\ st[Ev.t] = "looked" /\ pass' = [pass EXCEPT ![Ev.t] = Ev.b] /\ Adv /\ UNCHANGED <<st, found, tainted, active, starts, rerun>>
-  \/ /\ Is("t.taint") /\ st[Ev.t] = "looked" /\ tainted' = [tainted EXCEPT ![Ev.t] = Ev.b] /\ Adv /\ UNCHANGED <<st, found, pass, active, starts, rerun>>
-  \/ /\ Is("t.load") /\ Adv /\ UNCHANGED <<st, found, tainted, pass, active, starts, rerun>>
+     /\ Adv /\ UNCHANGED <<tainted, pass, starts, rerun, ldeps>>
+  \/ /\ Is("t.check") /\ st[Ev.t] = "looked" /\ pass' = [pass EXCEPT ![Ev.t] = Ev.b] /\ Adv /\ UNCHANGED <<st, found, tainted, active, starts, rerun, ldeps>>
+  \/ /\ Is("t.taint") /\ st[Ev.t] = "looked" /\ tainted' = [tainted EXCEPT ![Ev.t] = Ev.b] /\ Adv /\ UNCHANGED <<st, found, pass, active, starts, rerun, ldeps>>
+  \/ /\ Is("t.load") /\ Adv /\ UNCHANGED <<st, found, tainted, pass, active, starts, rerun, ldeps>>
   \* HitRule: a cached result is used only if it was found, the target is not tainted, not no-cache, the cache is enabled and the checks pass
   \/ /\ Is("t.hit") /\ st[Ev.t] = "looked" /\ found[Ev.t] /\ ~tainted[Ev.t] /\ pass[Ev.t] /\ H.cacheOn /\ Ev.t \notin ToSet(H.nocache)
-     /\ st' = [st EXCEPT ![Ev.t] = "done-hit"] /\ active' = active \ {Ev.t} /\ Adv /\ UNCHANGED <<found, tainted, pass, starts, rerun>>
-  \/ /\ Is("t.exec") /\ st[Ev.t] = "looked" /\ st' = [st EXCEPT ![Ev.t] = "exec"] /\ Adv /\ UNCHANGED <<found, tainted, pass, active, starts, rerun>>
-  \/ /\ Is("t.loaddep") /\ Adv /\ UNCHANGED <<st, found, tainted, pass, active, starts, rerun>>
-  \/ /\ Is("t.rerundep") /\ rerun' = rerun \cup {Ev.d} /\ Adv /\ UNCHANGED <<st, found, tainted, pass, active, starts>>
+     /\ st' = [st EXCEPT ![Ev.t] = "done-hit"] /\ active' = active \ {Ev.t} /\ Adv /\ UNCHANGED <<found, tainted, pass, starts, rerun, ldeps>>
+  \/ /\ Is("t.exec") /\ st[Ev.t] = "looked" /\ st' = [st EXCEPT ![Ev.t] = "exec"] /\ Adv /\ UNCHANGED <<found, tainted, pass, active, starts, rerun, ldeps>>
+  \/ /\ Is("t.loaddep") /\ ldeps' = ldeps \cup {<<Ev.t, Ev.d>>} /\ Adv /\ UNCHANGED <<st, found, tainted, pass, active, starts, rerun>>
+  \/ /\ Is("t.rerundep") /\ rerun' = rerun \cup {Ev.d} /\ Adv /\ UNCHANGED <<st, found, tainted, pass, active, starts, ldeps>>
   \* AtMostOnceCli: one command start per target and build (a dependency re-run by a dependant in minimal mode is announced by t.rerundep)
   \/ /\ Is("t.cmd.start")
-     /\ \/ st[Ev.t] = "exec" /\ starts[Ev.t] = 0 /\ st' = [st EXCEPT ![Ev.t] = "cmd"] /\ UNCHANGED rerun
+     /\ \/ /\ st[Ev.t] = "exec" /\ starts[Ev.t] = 0 /\ st' = [st EXCEPT ![Ev.t] = "cmd"] /\ UNCHANGED rerun
+           \* LoadedBeforeCommand (C15): in minimal mode the outputs of every direct dependency were taken care of first
+           /\ H.mode = "minimal" => \A d \in DepsOf(Ev.t) : <<Ev.t, d>> \in ldeps
         \/ Ev.t \in rerun /\ st[Ev.t] \in {"done-hit", "done-ok"} /\ st' = [st EXCEPT ![Ev.t] = "recmd"] /\ rerun' = rerun \ {Ev.t}
-     /\ starts' = [starts EXCEPT ![Ev.t] = @ + 1] /\ Adv /\ UNCHANGED <<found, tainted, pass, active>>
+     /\ starts' = [starts EXCEPT ![Ev.t] = @ + 1] /\ Adv /\ UNCHANGED <<found, tainted, pass, active, ldeps>>
   \/ /\ Is("t.cmd.end") /\ st[Ev.t] \in {"cmd", "recmd"}
      /\ st' = [st EXCEPT ![Ev.t] = IF st[Ev.t] = "recmd" THEN (IF Ev.b THEN "recmdok" ELSE "done-fail") ELSE (IF Ev.b THEN "cmdok" ELSE "done-fail")]
      /\ active' = IF Ev.b \/ st[Ev.t] = "recmd" THEN active ELSE active \ {Ev.t}
-     /\ Adv /\ UNCHANGED <<found, tainted, pass, starts, rerun>>
+     /\ Adv /\ UNCHANGED <<found, tainted, pass, starts, rerun, ldeps>>
   \* a target without a command goes from t.exec straight to the storing of its (empty) outputs
   \/ /\ Is("t.recheck") /\ st[Ev.t] \in {"cmdok", "recmdok", "exec"} /\ st' = [st EXCEPT ![Ev.t] = "done-fail"] /\ active' = active \ {Ev.t}
-     /\ Adv /\ UNCHANGED <<found, tainted, pass, starts, rerun>>
+     /\ Adv /\ UNCHANGED <<found, tainted, pass, starts, rerun, ldeps>>
   \* NoResultAfterFailure: a result is written only for a target whose command (if any) succeeded
-  \/ /\ Is("t.result.write") /\ st[Ev.t] \in {"cmdok", "recmdok", "exec"} /\ Adv /\ UNCHANGED <<st, found, tainted, pass, active, starts, rerun>>
+  \/ /\ Is("t.result.write") /\ st[Ev.t] \in {"cmdok", "recmdok", "exec"} /\ Adv /\ UNCHANGED <<st, found, tainted, pass, active, starts, rerun, ldeps>>
   \/ /\ Is("t.stored") /\ st[Ev.t] \in {"cmdok", "recmdok", "exec"}
      /\ st' = [st EXCEPT ![Ev.t] = IF Ev.b THEN "done-ok" ELSE "done-fail"]
      /\ active' = IF st[Ev.t] = "recmdok" THEN active ELSE active \ {Ev.t}
-     /\ Adv /\ UNCHANGED <<found, tainted, pass, starts, rerun>>
-  \/ /\ Is("t.taint.clear") /\ Adv /\ UNCHANGED <<st, found, tainted, pass, active, starts, rerun>>
+     /\ Adv /\ UNCHANGED <<found, tainted, pass, starts, rerun, ldeps>>
+  \/ /\ Is("t.taint.clear") /\ Adv /\ UNCHANGED <<st, found, tainted, pass, active, starts, rerun, ldeps>>
   \/ /\ ti <= Len(Traces) /\ l = Len(Traces[ti].ev) + 1 /\ NextTrace
 Stuck == ti <= Len(Traces) /\ ~ENABLED Core
 Next == Core \/ (Stuck /\ NextTrace)
@@ -72,6 +75,7 @@ Why ==
     [] Ev.k = "t.hit" -> S(~found[Ev.t], "hit-without-result") \cup S(tainted[Ev.t], "hit-although-tainted") \cup S(~pass[Ev.t], "hit-although-check-fails")
                          \cup S(~H.cacheOn, "hit-although-cache-disabled") \cup S(Ev.t \in ToSet(H.nocache), "hit-although-no-cache") \cup S(st[Ev.t] # "looked", "hit-out-of-order")
     [] Ev.k = "t.cmd.start" -> S(starts[Ev.t] > 0 /\ Ev.t \notin rerun, "command-started-twice") \cup S(starts[Ev.t] = 0 /\ st[Ev.t] # "exec", "command-start-out-of-order")
+                               \cup S(starts[Ev.t] = 0 /\ H.mode = "minimal" /\ \E d \in DepsOf(Ev.t) : <<Ev.t, d>> \notin ldeps, "command-before-dependency-outputs-loaded")
     [] Ev.k = "t.result.write" -> {"result-written-for-failed-or-unfinished-target"}
     [] Ev.k = "t.stored" -> {"outputs-stored-for-failed-or-unfinished-target"}
     [] OTHER -> {"event-out-of-order:" \o Ev.k}
